@@ -215,7 +215,7 @@ def step (st : St) (line : String) : St × String :=
     match nat? sid, nat? sid >>= (find · st.sessOf) with
     | some sid, some pid => sysStep st pid sid .start
     | _, _ => bad
-  | ["finish", sid, msg] =>
+  | ["finish", sid, msg] | ["finishba", sid, msg] =>
     match nat? sid, nat? sid >>= (find · st.sessOf), parseHex msg with
     | some sid, some pid, some msg => sysStep st pid sid (.finish msg)
     | _, _, _ => bad
